@@ -4,6 +4,8 @@ package textwire
 
 import "github.com/textwire/textwire/v2/config"
 
+const c16Names = 7
+
 type c16Result struct {
 	out, err, body string
 }
@@ -16,6 +18,9 @@ func c16Tree() *Template {
 	vfsWriteFile("templates/bad.tw", "head{{ 1 / d > 0 ? 'p' : 'n' }}")
 	vfsWriteFile("templates/err.tw", "Custom oops")
 	vfsWriteFile("plain.txt", "file {{ d > 0 ? 'p' : 'n' }}")
+	vfsWriteFile("templates/prof.tw", "<{{ u.name }}>")
+	vfsWriteFile("templates/setter.tw", "{{ h = \"H\" }}[{{ h }}]")
+	vfsWriteFile("templates/reader.tw", "({{ h }})")
 	tpl, err := NewTemplate(&config.Config{TemplateDir: "templates", TemplateExt: ".tw", ErrorPagePath: "err"})
 	vAssert(err == nil && tpl != nil, "tree-loads")
 	return tpl
@@ -23,8 +28,16 @@ func c16Tree() *Template {
 
 // c16Op runs one of the rendering operations; name and data are chosen by the caller.
 func c16Op(tpl *Template, op, name int, d int64, s string) c16Result {
-	names := []string{"ok", "bad", "missing"}
+	names := []string{"ok", "bad", "missing", "prof", "prof", "setter", "reader"}
 	data := map[string]any{"vs": []any{s, "z"}, "d": d}
+	switch name {
+	case 3:
+		data["u"] = struct{ Name string }{s} // reachable as u.name through the capitalised spelling
+	case 4:
+		data["u"] = map[string]string{"name": s}
+	case 5, 6:
+		data = nil // renders without data
+	}
 	cwd := vfsCwd()
 	strip := func(t string) string { // make paths comparable between the engine's and the native directory
 		out := ""
@@ -74,7 +87,7 @@ func c16Op(tpl *Template, op, name int, d int64, s string) c16Result {
 func c16Snapshot(tpl *Template) string {
 	out := userConfig.TemplateDir + "|" + userConfig.TemplateExt + "|" + userConfig.ErrorPagePath + "|" + b01(userConfig.DebugMode) + "|"
 	out += string([]byte{byte('0' + len(customFunc.Str) + len(customFunc.Arr) + len(customFunc.Int) + len(customFunc.Float) + len(customFunc.Bool))})
-	for _, n := range []string{"ok", "bad", "err"} {
+	for _, n := range []string{"ok", "bad", "err", "prof", "setter", "reader"} {
 		if p, ok := tpl.programs[n]; ok {
 			out += "|" + n + "=" + p.String()
 		}
@@ -95,16 +108,17 @@ func HarnessC16History() {
 	d := vInt64("d")
 	probeOp, probeName := vChoice("probe.op", 4), 0
 	if probeOp < 2 {
-		probeName = vChoice("probe.name", 3)
+		probeName = vChoice("probe.name", c16Names)
 	}
 	vFreeze()
+	vShare(tpl) // the loaded Template and every AST it holds
 	snap := c16Snapshot(tpl)
 	base := c16Op(tpl, probeOp, probeName, d, s)
 	h := vChoice("history", vParam("H")+1)
 	for i := 0; i < h; i++ {
 		op, name := vChoice("op", 4), 0
 		if op < 2 {
-			name = vChoice("name", 3)
+			name = vChoice("name", c16Names)
 		}
 		hd := vInt64("hd")
 		c16Op(tpl, op, name, hd, s)
